@@ -350,18 +350,20 @@ and rand_script r ~nk ~other_mode ~refs ~depth ~len : sop list =
   Array.iteri (fun i o ->
     match o with
     | Sk | Bra ->
-      let t = match rand_int r 24 with
+      let t = match rand_int r 120 with
         | 0 -> None                                   (* target never set *)
         | 1 -> Some (Z.of_int (len + 1 + rand_int r 3)) (* past the end *)
         | 2 -> Some (Z.of_int i)                      (* itself *)
-        | 3 -> Some (Z.of_int len)                    (* the end *)
-        | _ -> Some (Z.of_int (rand_int r (len + 1))) in
+        | k when k < 12 -> Some (Z.of_int len)        (* the end *)
+        | _ -> let t = rand_int r (len + 1) in
+               (* a branch to itself trips a debug_assert in set_target: keep it rare (case 2 above) *)
+               Some (Z.of_int (if t = i then (t + 1) mod (len + 1) else t)) in
       (match t with Some t -> sets := St (Z.of_int i, t) :: !sets | None -> ())
     | _ -> ()) ops;
   let l = Array.to_list ops in
   (* set_target calls: after all operations (so that every target index exists), occasionally early *)
   let sets = List.rev !sets in
-  let extra = if len > 0 && rand_int r 30 = 0 then [St (Z.of_int (rand_int r (len + 1)), Z.of_int (rand_int r (len + 1)))] else [] in
+  let extra = if len > 0 && rand_int r 150 = 0 then [St (Z.of_int (rand_int r (len + 1)), Z.of_int (rand_int r (len + 1)))] else [] in
   l @ sets @ extra
 
 let all_cfgs_unit =
